@@ -64,11 +64,12 @@ func ruleRightSelects(c *Ctx) {
 		if !ok {
 			return
 		}
-		k, isM := want[f.Name()]
+		fnm := p.baseFieldName(f)
+		k, isM := want[fnm]
 		if !isM {
 			return
 		}
-		seen[f.Name()] = true
+		seen[fnm] = true
 		blk := ins.Block()
 		good := false
 		if len(blk.Preds) == 1 {
@@ -81,7 +82,17 @@ func ruleRightSelects(c *Ctx) {
 				}
 			}
 		}
-		c.Decide(good, "right-selects:"+f.Name(), p.InstrPos(ins), f.Name()+" consulted exactly for its right", f.Name()+" is consulted on a path that did not establish right == its own constant: push rights grant pulling or vice versa")
+		if !good {
+			// polarity / else-chain forms: right == k established at the load
+			domConds(ins, func(cond ssa.Value, taken bool) {
+				if b, ok := cond.(*ssa.BinOp); ok && origin(b.X) == ssa.Value(right) {
+					if kk, ok := evalInt(b.Y); ok && kk == k && (b.Op == token.EQL && taken || b.Op == token.NEQ && !taken) {
+						good = true
+					}
+				}
+			})
+		}
+		c.Decide(good, "right-selects:"+fnm, p.InstrPos(ins), fnm+" consulted exactly for its right", fnm+" is consulted on a path that did not establish right == its own constant: push rights grant pulling or vice versa")
 	})
 	for n := range want {
 		if !seen[n] {
